@@ -350,6 +350,10 @@ def obligations(tier, build):
                                   bounds={"stored entries s": s, "owner": "falsy (defines __bool__ / __len__)"},
                                   leverage="validity of keys/values"))
     import props._owners as owners_
+    obs.append(Obligation("class-routes/dict", owners_.class_routes_harness("dict"),
+                          bounds={"objects": "base-class instance, two subclasses with their own _c_items_changed, a second instance",
+                                  "listeners": "two listener objects that compare equal", "Undefined": "as item / key / value"},
+                          leverage="choice feasibility only"))
     obs.append(Obligation("detached/dict", owners_.detached_harness("dict"), bounds={"how the container lost its place": owners_.DETACH_HOWS,
                                                                                       "operations": "3 valid, 2 refused by the built-in"},
                           leverage="choice feasibility only"))
